@@ -323,8 +323,8 @@ theorem C09_chunking_text_utf8 (t : Text) (chunks : List (List UInt8)) :
   rw [C09_utf8_automata_agree, C09_utf8_automata_agree]
   exact key
 
-/-- a malformed stream (`E4 B8` cut short by `61`, then `世` cut inside) through the compiled automaton into
-the 3 × 2 window of `exWr`: error, then both characters -/
+/-- a malformed stream (`E4 B8` cut short by `61`, then `世` cut inside) through the driver's automaton into
+the 3 × 2 window of `exWr`: the second write reports the decoding error and the caller gives up -/
 example : (match session utf8Auto putChar exWr (uinit utf8Auto) [[0xe4, 0xb8], [0x61, 0xe4], [0xb8, 0x96]] with
     | .ok (w, rs) => some (w.touched, rs) | .error _ => none) = some ([], [true, false]) := by decide
 
